@@ -16,6 +16,7 @@ package badger
 
 import (
 	"context"
+	"time"
 
 	"github.com/dgraph-io/badger"
 
@@ -39,10 +40,11 @@ func NewKvStorage(config Config) (storage.KvStorage, error) {
 }
 
 func (b *store) GetTimestampOracle(ctx context.Context) (timestamp uint64, err error) {
-	txn := b.db.NewTransaction(false)
-	defer txn.Discard()
-	ts := txn.ReadTs()
-	return ts, nil
+	// a new leader starts handing out revisions from this timestamp, so it has to be above every
+	// revision the previous leader has handed out. Badger's read timestamp only counts committed
+	// transactions, but a write whose condition fails takes a revision without committing anything,
+	// so the wall clock is used, as the in-memory engine does
+	return uint64(time.Now().UnixNano()), nil
 }
 
 func (b *store) SupportTTL() bool {
